@@ -1,5 +1,10 @@
 import Ypv.Props.C09
-#print axioms Ypv.C09.create_exact_partial_seq
-#print axioms Ypv.C09.create_exact_partial_map
+#print axioms Ypv.C09.create_exact
+#print axioms Ypv.C09.create_resolves
+#print axioms Ypv.C09.create_frame
+#print axioms Ypv.C09.create_keeps_anchor
+#print axioms Ypv.C09.create_exact_summary
+#print axioms Ypv.C09.create_seq_growth
+#print axioms Ypv.C09.create_map_growth
 #print axioms Ypv.C09.fill_resolves
 #print axioms Ypv.C09.create_nothing_when_present
